@@ -3,6 +3,7 @@
 set -u
 PATCH=$1; OUT=$2; TIER=$3; shift 3
 mkdir -p "$OUT"
+export VERIF_EVIDENCE_DIR="$OUT/evidence"
 cd /verif
 if ! git -C /repo diff --quiet; then echo "/repo is dirty, refusing"; exit 2; fi
 trap 'git -C /repo checkout -- . ; git -C /repo clean -fdq src tests 2>/dev/null' EXIT
